@@ -364,6 +364,7 @@ def apply_reference(repo):
     """rename locals / parameters of the in-memory ASTs to the reference names where the structure matches"""
     ref = load_reference()
     full_ref = ref
+    repo.local_buffers = local_buffers(repo, None) if full_ref else {}
     try:
         repo.inlined_helpers = inline_new_helpers(repo, full_ref) if full_ref else {}
     except RecursionError:
@@ -1305,6 +1306,36 @@ def stdlib_equivalents(repo, ref):
     return done
 
 
+def local_buffers(repo, ref_or_new):
+    """with BytesIO() as X: BODY   is   X = BytesIO(); BODY   when X is a local that is used only inside BODY, only as the receiver of
+    method calls or as a whole positional argument of a call, and never after the block: leaving the block closes a buffer that
+    nothing can reach any more"""
+    done = {}
+    for q, fi in repo.funcs.items():
+        if fi.is_lambda or (ref_or_new is not None and q in ref_or_new):
+            continue
+        for owner, field, blk in _blocks(fi.node):
+            for i, st in enumerate(blk):
+                if not (isinstance(st, ast.With) and len(st.items) == 1 and isinstance(st.items[0].optional_vars, ast.Name) and isinstance(st.items[0].context_expr, ast.Call)
+                        and ast.unparse(st.items[0].context_expr) in ("BytesIO()", "io.BytesIO()")):
+                    continue
+                x = st.items[0].optional_vars.id
+                uses = [n for n in walk_own(fi.node) if isinstance(n, ast.Name) and n.id == x and n is not st.items[0].optional_vars]
+                inside = {id(n) for s_ in st.body for n in ast.walk(s_)}
+                ok = x not in fi.params and all(id(n) in inside and isinstance(n.ctx, ast.Load) and (
+                    (isinstance(getattr(n, "_parent", None), ast.Attribute) and isinstance(getattr(n._parent, "_parent", None), ast.Call) and n._parent._parent.func is n._parent)
+                    or (isinstance(getattr(n, "_parent", None), ast.Call) and n in n._parent.args)) for n in uses)
+                if not ok:
+                    continue
+                new = _fresh_stmt("%s = %s" % (x, ast.unparse(st.items[0].context_expr)), st, owner)[0]
+                for b_ in st.body:
+                    b_._parent = owner
+                blk[i:i + 1] = [new] + st.body
+                _invalidate(owner)
+                done.setdefault(q, []).append(x)
+    return done
+
+
 def suppress_to_try(repo, ref):
     """with contextlib.suppress(E1, E2): B    is    try: B  except (E1, E2): pass    (the context manager's exit swallows exactly
     the exceptions an except clause with those classes would catch, and nothing else happens on entry or exit)"""
@@ -2142,6 +2173,31 @@ def unroll_constant_tables(repo, ref):
                 elif isinstance(it, ast.Name):
                     key = (fi.module.name, None, it.id)
                 rows = tables.get(key)
+                prelude, drop_prev = [], False
+                if rows is None and isinstance(it, ast.Name) and i >= 2 and isinstance(blk[i - 2], ast.Assign) and len(blk[i - 2].targets) == 1 \
+                        and isinstance(blk[i - 2].targets[0], ast.Name) and blk[i - 2].targets[0].id == it.id and isinstance(blk[i - 2].value, (ast.Tuple, ast.List)) \
+                        and sum(1 for x in walk_own(fi.node) if isinstance(x, ast.Name) and x.id == it.id) == 2 and it.id not in fi.params:
+                    # envelope = (a, b, c) bound in the statement before, for this loop only
+                    it = blk[i - 2].value
+                    drop_prev = True
+                if rows is None and isinstance(it, (ast.Tuple, ast.List)) and 1 <= len(it.elts) <= 4 and not any(isinstance(e_, ast.Starred) for e_ in it.elts) \
+                        and not all(isinstance(e_, (ast.Name, ast.Constant)) for e_ in it.elts) and isinstance(st.target, ast.Name) \
+                        and not any(isinstance(x, (ast.Await, ast.Yield, ast.YieldFrom, ast.NamedExpr, ast.Lambda)) for e_ in it.elts for x in ast.walk(e_)):
+                    # a display of arbitrary expressions: the display is evaluated before the first iteration - each element that is not a
+                    # plain name is bound to a temporary first, in order (single-use temporaries are folded later where that is exact)
+                    rows = []
+                    for k_, e_ in enumerate(it.elts):
+                        if isinstance(e_, (ast.Name, ast.Constant)):
+                            rows.append(e_)
+                        else:
+                            tname = "_u%d_%s" % (k_ + 1, st.target.id)
+                            prelude.append("%s = %s" % (tname, ast.unparse(e_)))
+                            rows.append(ast.Name(id=tname, ctx=ast.Load()))
+                    names_in = {x.id for e_ in it.elts for x in ast.walk(e_) if isinstance(x, ast.Name) and isinstance(e_, ast.Name)}
+                    if any(isinstance(x, ast.Name) and x.id in names_in and isinstance(x.ctx, (ast.Store, ast.Del)) for s_ in st.body for x in ast.walk(s_)):
+                        rows, prelude = None, []
+                    else:
+                        key = (fi.module.name, None, "<display>")
                 if rows is None and isinstance(it, (ast.Tuple, ast.List)) and it.elts and all(isinstance(e_, (ast.Name, ast.Constant)) or _chain(e_) is not None for e_ in it.elts):
                     # a display of names / constants written in place: for v in (a, b, c) - the names must not be rebound in the body
                     names_in = {x.id for e_ in it.elts for x in ast.walk(e_) if isinstance(x, ast.Name)}
@@ -2200,13 +2256,19 @@ def unroll_constant_tables(repo, ref):
                     fresh += ast.parse(ast.unparse(mod)).body
                 if not fresh:
                     fresh = [ast.Pass()]
+                if prelude:
+                    fresh = ast.parse("\n".join(prelude)).body + fresh
                 for s_ in fresh:
                     for y in ast.walk(s_):
                         ast.copy_location(y, st)
                         for ch in ast.iter_child_nodes(y):
                             ch._parent = y
                     s_._parent = owner
-                blk[i - 1:i] = fresh
+                if drop_prev:
+                    blk[i - 2:i] = fresh
+                    i -= 1
+                else:
+                    blk[i - 1:i] = fresh
                 i += len(fresh) - 1
                 _invalidate(owner)
                 done.setdefault(q, []).append(key[2])
@@ -3544,6 +3606,9 @@ def _boolean_returns(fnode, ref_entry):
                 test, first, second = v.args[0], "True", "False"
             elif isinstance(v, ast.UnaryOp) and isinstance(v.op, ast.Not):
                 test, first, second = v.operand, "False", "True"
+            elif isinstance(v, ast.IfExp) and all(isinstance(x, ast.Constant) and isinstance(x.value, bool) for x in (v.body, v.orelse)):
+                # return A if C else B with constant arms is the if statement it abbreviates
+                test, first, second = v.test, repr(v.body.value), repr(v.orelse.value)
             else:
                 continue
             new = ast.parse("if %s:\n    return %s\nreturn %s" % (ast.unparse(test), first, second)).body
